@@ -18,8 +18,9 @@ if ! (cd "$S/repo" && patch -s -p1 < "$PATCH"); then echo "SEED $ID-$K: patch do
 mut=$(cd "$S/repo/$place" && go test -vet=off -count=1 -run "^$tname\$" . 2>&1 | tail -1)
 rm -f "$dst"
 suite=$(cd "$S/repo" && go test -vet=off -count=1 ./... 2>&1 | grep -c '^FAIL')
-out=$(VERIF_BUDGET_S=${VERIF_BUDGET_S:-900} "$V/mutants/try.sh" "$CHECK" "$PATCH" 2>&1 | grep -E '^(VIOLATION|  key=|TRY)' | head -3 | cut -c1-400)
+out=$(TRY_LINES=400 VERIF_BUDGET_S=${VERIF_BUDGET_S:-900} "$V/mutants/try.sh" "$CHECK" "$PATCH" 2>&1 | grep -E '^(VIOLATION|  key=|TRY)' | grep -A1 -E '^(VIOLATION|TRY)' | grep -v '^--' | cut -c1-400)
 det=$(echo "$out" | grep -c '^VIOLATION')
+out=$(echo "$out" | head -3)
 echo "SEED $ID-$K: demo-clean=[$clean] demo-mutant=[$mut] suite-fail-pkgs=$suite detected-by-$CHECK=$det"
 case "$clean" in ok*) ;; *) echo "  demo does not pass on the clean tree"; exit 4;; esac
 case "$mut" in FAIL*|*FAIL*) ;; *) echo "  demo does not fail with the patch"; exit 5;; esac
